@@ -1341,7 +1341,7 @@ def register_populations_from_swc(R):
           ensures=BASE + MATCH + [("every-reader-gets-the-given-columns-then-the-eswc-columns-callers-list-untouched", eswc_columns)],
           notes="Populations.from_swc inlined")
 
-    # FINDING (genuine defect, replayed natively: /var/tmp/w2-c19-x/cs/replay_check_same.py in the report): with intersect=False the
+    # FINDING (genuine defect, replayed natively: tools/replay_C19_check_same.py): with intersect=False the
     # option check_same=True is documented as "Check if the directories contains the same swc", but the code asserts a
     # NON-EMPTY LIST (`assert [fs[0] == a for a in fs[1:]]`), which is always true for two or more roots: directories with
     # different file sets are accepted and row i pairs differently named files.  (With ONE root the list is empty and the
